@@ -274,9 +274,16 @@ class ExecutionContext:
                             else:
                                 localScope[ref] = [v / op2 for v in op1]
                         case LinearIR.OpCode.MATRIX_MUL_MATRIX:
-                            localScope[ref] = self.__MatrixMatrixMultiply(
-                                instruction.Type.Shape, op1, op2
-                            )
+                            if instruction.Type.IsVector():
+                                # matrix * column vector
+                                localScope[ref] = [
+                                    sum(row[k] * op2[k] for k in range(len(op2)))
+                                    for row in op1
+                                ]
+                            else:
+                                localScope[ref] = self.__MatrixMatrixMultiply(
+                                    instruction.Type.Shape, op1, op2
+                                )
                         case _:
                             Errors.ERROR_INTERNAL_COMPILER_ERROR.Raise(
                                 f"Unsupported binary operation: {operation}"
